@@ -482,9 +482,14 @@ type Set struct {
 
 type HexString string
 
+// hexTokenType identifies tokens produced by the "Hex" lexer rule, so that other
+// tokens whose value happens to start with "hex:" (a quoted string) are not
+// taken for byte arrays.
+var hexTokenType = lexer.MustSimple(BiscuitLexerRules).Symbols()["Hex"]
+
 func (h *HexString) Parse(lex *lexer.PeekingLexer) error {
 	token := lex.Peek()
-	if !strings.HasPrefix(token.Value, "hex:") {
+	if token.Type != hexTokenType || !strings.HasPrefix(token.Value, "hex:") {
 		return participle.NextMatch
 	}
 	lex.Next()
